@@ -95,6 +95,8 @@ def exhaustive(pool, popts, copts, n, kind):
 def random_pool(rng, npts):
     n = rng.randrange(4, 28)
     ptss = [rng.randrange(2 ** 33) for _ in range(npts)]
+    if rng.random() < 0.35:
+        ptss[rng.randrange(npts)] = rng.choice([0, 0, 0, 1, 2 ** 33 - 1])     # signal time exactly 0 (seeded C10-v1: an empty ring slot matched it)
     pool = []
     for _ in range(n):
         if pool and rng.random() < 0.15:
@@ -105,7 +107,7 @@ def random_pool(rng, npts):
             ty = rng.choice(TYPES) if rng.random() < 0.7 else rng.choice([0x10, 0x13, 0x14, 0x40, 0x50, 0x30, 0x35])
             d = D(ty, rng.choice([1, 1, 2, 3]), rng.choice(ptss), haspts=0 if rng.random() < 0.06 else 1,
                   segnum=rng.choice([1, 2]), segexp=2, hassub=rng.randrange(2) if ty in (0x34, 0x36) else 0,
-                  subnum=rng.choice([1, 2]), subexp=2, vss=rng.choice([None, 1, 1, 2]) if ty == 0x40 else None)
+                  subnum=rng.choice([1, 2]), subexp=2, vss=rng.choice([None, 1, 1, 2, 1, 2, rng.randrange(900000, 900007)]) if ty == 0x40 else None)
         pool.append(d)
     return pool
 
@@ -174,6 +176,12 @@ def gen(rng, tier):
     out.append(hist(pool, [(0, 0), (0, 11)] + [(0, i) for i in range(1, 11)] + [(0, 0), (2,)], "ring-eviction"))
     # the VSS lookup error is raised before the descriptor is stored: the second attempt fails the same way (37, 37)
     out.append(hist([D(0x40, 5, 1000), D(0x40, 5, 2000)], [(0, 0), (0, 1), (0, 1), (2,)], "vss-twice", "C10_dup_twice_in_row_vss"))
+    # unusual ADI UPID texts (codes 900000.., Exec/SegExec.v vss_code): "BLACKOUT" without the colon, the word at the end,
+    # an empty id, two texts with one id, texts without the word (seeded C10-v2: slicing past the end of "...BLACKOUT")
+    vt = [D(0x40, 5, 1000 * (i + 1), vss=900000 + i) for i in range(7)] + [D(0x40, 5, 9000, vss=900000), D(0x40, 5, 9500, vss=1)]
+    out.append(hist(vt, [(0, i) for i in range(9)] + [(2,)] + [(0, i) for i in range(9)] + [(2,)], "vss-texts", "C10_inv_reachable"))
+    for i in range(7):
+        out.append(hist(vt, [(0, 8), (0, i), (0, i), (0, (i + 1) % 7), (0, 7), (2,), (1, i), (2,)], "vss-texts", "C10_inv_reachable"))
     out.append(hist([D(0x40, 5, 1000, vss=1), D(0x40, 5, 2000, vss=1), D(0x40, 5, 3000, vss=2), D(0x41, 5, 4000)],
                     [(0, 0), (0, 1), (0, 1), (0, 2), (0, 2), (0, 3), (2,)], "vss-twice", "C10_dup_twice_in_row_partial"))
     # exactly 10 signal times: nothing is forgotten
